@@ -197,6 +197,8 @@ func c06Positions() []c06Pos {
 			tail2 = ""
 		}
 		add(c06Pos{name: "return-2nd-of-2@" + k, decl: "func g() (int, string) {\n" + w[0] + "return 1, %H\n" + w[1] + tail2 + "}\n", stmt: "a, b := g()\nprint(a, b)", accept: []string{"string"}, noCtx: true})
+		add(c06Pos{name: "return-1st-of-2@" + k, decl: "func g() (int, string) {\n" + w[0] + "return %H, \"z\"\n" + w[1] + tail2 + "}\n", stmt: "a, b := g()\nprint(a, b)", accept: []string{"int"}, noCtx: true})
+		add(c06Pos{name: "return-2nd-of-3@" + k, decl: "func g() (int, bool, string) {\n" + w[0] + "return 1, %H, \"z\"\n" + w[1] + strings.Replace(tail2, "return 0, \"z\"", "return 0, true, \"z\"", 1) + "}\n", stmt: "a, b, c := g()\nprint(a, b, c)", accept: []string{"bool"}, noCtx: true})
 		add(c06Pos{name: "return-too-many@" + k, decl: "func g() int {\n" + w[0] + "return 1, %H\n" + w[1] + tail + "}\n", stmt: "print(g())", accept: nil, noCtx: true})
 		add(c06Pos{name: "return-too-few@" + k, decl: "func g() (int, int) {\n" + w[0] + "return %H\n" + w[1] + strings.Replace(tail, "return 0", "return 0, 0", 1) + "}\n", stmt: "a, b := g()\nprint(a, b)", accept: []string{"multi"}, noCtx: true,
 			skip: func(o c06Offer) bool { return o.typ == "multi" }}) // return f2() from a (int, int) function: legal Go, not promised by the README
